@@ -233,7 +233,7 @@ func runC19(c *Ctx) {
 	}
 	R.Analysed["integer_conversions"] = nconv
 	R.Analysed["narrowing_candidates"] = ncand
-	R.Floor("R19.1:narrowing-candidates", ncand, 20)
+	R.Floor("R19.1:narrowing-candidates", ncand, 8)
 	checkNarrowArith(c)
 	checkProtocolSwitch(c)
 	checkDefaultPort(c)
